@@ -181,6 +181,7 @@ class FaultRun:
                         "rows_before": len(s.model.points), "rows_expected_after": len(expected),
                         "history": [o if "q" not in o else dict(o, q=qast.show(o["q"])) for o in s.log[-4:]]})
         res.seen((fault, cfg_name(self.cfg), tuple(p.canon() for p in s.model.points)))
+        file_first = self.file_now(s)
         if exc is None:
             # The property speaks about calls that raise; a call that returned is not a fault sequence.
             res.count("call_did_not_raise_skipped")
@@ -207,12 +208,36 @@ class FaultRun:
         else:
             s.model.points = [p.copy() for p in expected]
             res.count("contents_as_before")
+            if not self.file_agrees(s, fault, "right after the failed call", file_first, want):
+                return False
         v = c06.check_index(res, s.db, {"config": cfg_name(self.cfg), "after_fault": fault, "replay": {"cfg": self.cfg, "ops": list(s.log), "fault": fault}})
         res.count("index_battery_after_fault")
         if v is not None:
             v.prop = "C11"
             v.kind = "index-disagrees-with-storage-after-failed-call"
             res.violate(v)
+            return False
+        return True
+
+    def file_now(self, s):
+        """CSV: what the file holds right now (independent reader, separate descriptor). Must be taken BEFORE any
+        peek through the database's own handle: seeking that handle flushes its write buffer."""
+        if self.cfg["storage"] != "csv":
+            return None
+        from .. import csvcodec
+
+        try:
+            return [p.canon() for p in csvcodec.decode_bytes(s.file_bytes(), "utf-8", {})]
+        except csvcodec.DecodeError as e:
+            return f"independent reader: {e}"
+
+    def file_agrees(self, s, fault, when, got, want):
+        if got is None:
+            return True
+        self.res.count("file_checks_after_fault")
+        if got != want:
+            self.violate(s, "file-lags-behind-database-after-failed-call",
+                         {"fault": fault, "when": when, "file_decodes_to": repr(got)[:500], "database_holds": repr(want)[:500]})
             return False
         return True
 
@@ -224,12 +249,15 @@ class FaultRun:
             pre = s.model.copy()
             out = s.do(op)
             res.count("ops_after_fault")
+            file_first = self.file_now(s)
             post = s.contents()
             bad = None
             if not out.agrees():
                 bad = ("later-write-misbehaves", out)
             elif post != [p.canon() for p in s.model.points]:
                 bad = ("later-write-wrong-contents", out)
+            if bad is None and not self.file_agrees(s, fault, f"after later op {op['op']}", file_first, [p.canon() for p in s.model.points]):
+                return
             if bad is None:
                 for probe in query_probes(rng, s.model, self.prof)[:14] + getter_probes(rng, s.model, self.prof)[:10]:
                     pout = s.do(probe)
@@ -449,6 +477,7 @@ def run(res, tier, seed, shard, nshards):
     res.require("index_battery_after_fault")
     res.require("ops_after_fault")
     res.require("reads_after_fault")
+    res.require("file_checks_after_fault")
     res.assumptions += [
         "update callables misbehave in a single slot per call; insert_multiple offenders are non-Point objects or a raising generator",
         "'still usable' is decided on 5-10 further operations and ~24 reads each, compared with the model",
